@@ -85,9 +85,25 @@ def ctxSpreads (s : SchemaD) (fx : Fixes) (P : AL String) : CTX ⟨s, fx, [.poss
     split <;> exact hi
   leaveI n st _ hi := by rw [leave_single, pfsLeave]; exact hi
   skipE n st hn hi hb := by
-    rw [enter_single, pfs_enter s fx n _ _ hn]
+    have h2 : (enter ⟨s, fx, [.possibleFragmentSpreads]⟩ n st).2 = true := by
+      rw [enter_single, pfs_enter s fx n _ _ hn]; simp only [hi, hb, ↓reduceIte]
+    refine ⟨h2, ?_⟩
+    rw [leaveSkipped_enter_single s fx _ n st h2, pfs_enter s fx n _ _ hn]
     simp only [hi, hb, ↓reduceIte, E, RS.err, List.length_cons]
-    exact ⟨trivial, Nat.lt_succ_self _⟩
+    exact Nat.lt_succ_self _
+  skipI n st hn hi hb := by
+    rcases hb with hb | hb
+    · have h2 : (enter ⟨s, fx, [.possibleFragmentSpreads]⟩ n st).2 = true := by
+        rw [enter_single, pfs_enter s fx n _ _ hn]; simp only [hi, hb, ↓reduceIte]
+      rw [leaveSkipped_enter_single s fx _ n st h2, pfs_enter s fx n _ _ hn]
+      simp only [hi, hb, ↓reduceIte, RS.err]
+    · cases hb
+  skip_ctx n st hn hi hb := by
+    rcases hb with hb | hb
+    · have h2 : (enter ⟨s, fx, [.possibleFragmentSpreads]⟩ n st).2 = true := by
+        rw [enter_single, pfs_enter s fx n _ _ hn]; simp only [hi, hb, ↓reduceIte]
+      rw [leaveSkipped_enter_single s fx _ n st h2]
+    · cases hb
   noskip n st hn hi hb _ := by
     rw [enter_single, pfs_enter s fx n _ _ hn]
     simp only [hi, hb, Bool.false_eq_true, ↓reduceIte]
